@@ -1,6 +1,7 @@
 import CryoCat.Lemmas.C15_ops
 import CryoCat.Lemmas.C15_bin
 import CryoCat.Lemmas.C15_hard
+import CryoCat.Lemmas.C15_angles
 /-! C15 — property theorems: tilt-stack operations are lossless selections / permutations of tilt images.
 
 Only theorems and non-vacuity examples; helper lemmas live in `Lemmas/C15*.lean`. Conventions of the model
@@ -77,7 +78,23 @@ theorem defaults_documented :
           ("indices_load", "input_data, numbered_from_1"),
           ("indices_load.numbered_from_1", "True"),
           ("tlt_load", "input_tlt, sort_angles"),
-          ("tlt_load.sort_angles", "True")] := ⟨rfl, rfl, rfl, rfl⟩
+          ("tlt_load.sort_angles", "True"),
+          ("one_value_per_line_read", "file_path, data_type"),
+          ("one_value_per_line_read.data_type", "np.float32"),
+          ("Mdoc.__init__", "self, file_path, titles, project_info, imgs, section_id"),
+          ("Mdoc.__init__.file_path", "None"),
+          ("Mdoc.__init__.titles", "None"),
+          ("Mdoc.__init__.project_info", "None"),
+          ("Mdoc.__init__.imgs", "None"),
+          ("Mdoc.__init__.section_id", "'ZValue'"),
+          ("Mdoc.get_image_feature", "self, feature"),
+          ("read", "input_map, transpose, data_type"),
+          ("read.transpose", "True"),
+          ("read.data_type", "None"),
+          ("write", "data_to_write, file_name, transpose, data_type, overwrite"),
+          ("write.transpose", "True"),
+          ("write.data_type", "None"),
+          ("write.overwrite", "True")] := ⟨rfl, rfl, rfl, rfl⟩
 
 /-- what an omitted keyword means in the model the driver executes -/
 theorem defaults_resolve :
@@ -274,12 +291,141 @@ theorem loaders_documented :
       "    else:",
       "      raise ValueError"] := ⟨rfl, rfl⟩
 
+/-- **The readers the tilt angles pass through.** `one_value_per_line_read`: whitespace-separated `pd.read_csv` without header,
+first column, dtype = the `data_type` parameter whose default is `np.float32` (`defaults_documented`) — so a `.tlt`/`.rawtlt`
+angle is the written decimal rounded to float32, nothing else (no `np.round`, no sorting). The mdoc path: `Mdoc(path)` →
+`_read_mdoc` → `_parse_images` (`_format_value` per entry, then `TiltAngle` → `astype(float)`: the written decimal rounded to
+float64) → `get_image_feature` returns the column as is. This is what ties `parseDec` (the exact written value) to the key the
+code sorts by; the correspondence run generates decimal angles as close as 1e-4° to check it. -/
+theorem angle_readers_documented :
+    Gen.C15.oneValuePerLineBody = 
+      ["if not os.path.isfile(file_path):",
+      "  raise ValueError",
+      "try:",
+      "  v0 = pd.read_csv(file_path, header=None, dtype=data_type, sep='\\\\s+')",
+      "  if v0.empty:",
+      "    raise ValueError",
+      "except pd.errors.EmptyDataError:",
+      "  raise ValueError",
+      "return v0.iloc[:, 0].values"]
+    ∧ Gen.C15.mdocInitBody = 
+      ["if file_path and path.isfile(file_path):",
+      "  self.file_path = file_path",
+      "  self.titles, self.project_info, self.imgs, self.section_id = self._read_mdoc(file_path)",
+      "else:",
+      "  self.titles = titles",
+      "  self.project_info = project_info",
+      "  self.imgs = imgs",
+      "  self.section_id = section_id"]
+    ∧ Gen.C15.mdocReadBody = 
+      ["with open(file_path, 'r') as v0:",
+      "  v1 = v0.readlines()",
+      "  v2 = []",
+      "  for v3 in v1:",
+      "    if v3.startswith('[ZValue'):",
+      "      v4 = 'ZValue'",
+      "      break",
+      "    else:",
+      "      if v3.startswith('[FrameSet'):",
+      "        v4 = 'FrameSet'",
+      "        break",
+      "    if v3.strip():",
+      "      v2.append(v3.strip())",
+      "  v5, v6 = Mdoc._parse_header(v2)",
+      "  v7 = v1[v1.index(v3):]",
+      "  v8 = Mdoc._parse_images(v7, v4)",
+      "  return (v5, v6, v8, v4)"]
+    ∧ Gen.C15.mdocParseImagesBody = 
+      ["v0 = []",
+      "v1 = []",
+      "for v2 in data:",
+      "  if v2.startswith('[' + section_id) and v1:",
+      "    v0.append(v1)",
+      "    v1 = []",
+      "  if v2.strip():",
+      "    v1.append(v2)",
+      "v0.append(v1)",
+      "v3 = [section_id]",
+      "v3.extend([v2.split('=')[0].strip() for v2 in v0[0][1:]])",
+      "v4 = pd.DataFrame(columns=v3)",
+      "for v1 in v0:",
+      "  v5 = {}",
+      "  for v2 in v1:",
+      "    if v2.startswith('['):",
+      "      v5[section_id] = v2.split('=')[1].strip().strip(']').strip()",
+      "    else:",
+      "      v6, v7 = v2.split('=')",
+      "      v5[v6.strip()] = Mdoc._format_value(v7)",
+      "  v4 = pd.concat([v4, pd.DataFrame(v5, index=[0])], ignore_index=True)",
+      "v4['Removed'] = False",
+      "v8 = v4.astype({section_id: int})",
+      "v4[section_id] = v8[section_id]",
+      "v4['TiltAngle'] = v4['TiltAngle'].astype(float)",
+      "return v4"]
+    ∧ Gen.C15.mdocFormatValueBody = 
+      ["if value.strip().isdigit():",
+      "  v0 = int(value.strip())",
+      "else:",
+      "  if value.strip().replace('.', '', 1).isdigit():",
+      "    v0 = float(value.strip())",
+      "  else:",
+      "    v0 = value.strip()",
+      "return v0"]
+    ∧ Gen.C15.mdocFeatureBody = 
+      ["return self.imgs[feature]"] := ⟨rfl, rfl, rfl, rfl, rfl, rfl⟩
+
+/-- **The MRC reader and writer every operation passes through** (`cryomap.read` / `cryomap.write`, whole bodies — not only the
+`transpose=` keyword of the two call sites): `read` returns a copy of `mrcfile.open(...).data`, transposed only on request, cast
+only on request; `write` casts to `data_type`, transposes only on request, stores float64 as float32 and hands the array to
+`mrcfile.write`. -/
+theorem mrc_io_documented :
+    Gen.C15.cryomapReadBody = 
+      ["if isinstance(input_map, str):",
+      "  def v0(filename):",
+      "    v1 = '\\\\.(mrc|ali|rec|st)(\\\\.\\\\d+)?$'",
+      "    return bool(re.search(v1, filename))",
+      "  if v0(input_map):",
+      "    v2 = mrcfile.open(input_map).data",
+      "  else:",
+      "    if input_map.endswith('.em'):",
+      "      v2 = emfile.read(input_map)[1]",
+      "    else:",
+      "      raise ValueError",
+      "  if transpose:",
+      "    v2 = v2.transpose(2, 1, 0)",
+      "else:",
+      "  if isinstance(input_map, np.ndarray):",
+      "    v2 = np.array(input_map)",
+      "  else:",
+      "    raise ValueError",
+      "v2 = np.array(v2, copy=True)",
+      "if data_type is not None:",
+      "  v2 = v2.astype(data_type)",
+      "return v2"]
+    ∧ Gen.C15.cryomapWriteBody = 
+      ["if data_type is not None:",
+      "  data_to_write = data_to_write.astype(data_type)",
+      "if transpose and data_to_write.ndim == 3:",
+      "  data_to_write = data_to_write.transpose(2, 1, 0)",
+      "if data_to_write.dtype == np.float64:",
+      "  data_to_write = data_to_write.astype(np.float32)",
+      "if file_name.endswith('.mrc') or file_name.endswith('.rec'):",
+      "  mrcfile.write(name=file_name, data=data_to_write, overwrite=overwrite)",
+      "else:",
+      "  if file_name.endswith('.em'):",
+      "    emfile.write(file_name, data=data_to_write, overwrite=overwrite)",
+      "  else:",
+      "    raise ValueError"] := ⟨rfl, rfl⟩
+
 /-! ### sorting by tilt angle -/
 
 /-- **Sorting returns the same images reordered by ascending angle.** For every comparison `le` that is transitive and
-total, every list of angles (one per image; ties allowed here) and every stack: the result is the second components
-of a list `ps` of (angle, image) pairs that is a permutation of the input pairs — every image keeps its own angle,
-nothing is lost or duplicated — and is ascending in the angle. -/
+TOTAL (hypotheses `htrans`, `htotal`), every list of angles (one per image; ties allowed here) and every stack: the result
+is the second components of a list `ps` of (angle, image) pairs that is a permutation of the input pairs — every image
+keeps its own angle, nothing is lost or duplicated — and is ascending in the angle.
+The totality hypothesis is essential: IEEE `≤` on floats with a NaN is not total, so NaN angles are outside this theorem
+(and outside the quantifier of the property; they are never generated). The model the driver executes sorts by the exact
+rational value of the written angle, for which both hypotheses are proved: `sort_by_written_angles` is hypothesis-free. -/
 theorem sort_perm_sorted (le : κ → κ → Bool)
     (htrans : ∀ a b c, le a b = true → le b c = true → le a c = true) (htotal : ∀ a b, (le a b || le b a) = true)
     (angles : List κ) (imgs : List ι) (hlen : angles.length = imgs.length) :
@@ -297,7 +443,8 @@ theorem sort_is_permutation (le : κ → κ → Bool) (angles : List κ) (imgs r
   have := hperm.map (·.2)
   rwa [List.map_snd_zip (by omega)] at this
 
-/-- without ties the ascending arrangement is unique: whatever sorting algorithm numpy uses returns this list -/
+/-- without ties (and with an antisymmetric comparison, hypothesis `hanti`) the ascending arrangement is unique: whatever
+sorting algorithm numpy uses returns this list -/
 theorem sort_unique_without_ties (le : κ → κ → Bool)
     (hanti : ∀ a b, le a b = true → le b a = true → a = b) (angles : List κ) (hnodup : angles.Nodup)
     (imgs : List ι) (hlen : angles.length = imgs.length) (ps qs : List (κ × ι))
@@ -518,7 +665,9 @@ theorem transpose_spec (d : α) (a : A3 α) :
     ∧ (transpose3 d a).WF ∧ (a.WF → transpose3 d (transpose3 d a) = a) :=
   ⟨fun _ _ _ hi hj hk => transpose3_get d a hi hj hk, transpose3_wf d a, transpose3_transpose3 d a⟩
 
-/-- an MRC file written from a stack and read back is that stack (header `nx,ny,nz = width,height,tilts`, x fastest) -/
+/-- an MRC file written from a stack and read back is that stack (header `nx,ny,nz = width,height,tilts`, x fastest).
+Only the first conjunct has content (`readMrc_writeMrc`); the three header equations are `rfl` restatements of the
+definition of `writeMrc` — they are tied to the code by the `transpose=False` anchors and by the harness's own MRC parser. -/
 theorem file_roundtrip (a : A3 α) (h : a.WF) :
     readMrc (writeMrc a) = a ∧ (writeMrc a).nx = a.d2 ∧ (writeMrc a).ny = a.d1 ∧ (writeMrc a).nz = a.d0 :=
   ⟨readMrc_writeMrc a h, rfl, rfl, rfl⟩
@@ -526,14 +675,20 @@ theorem file_roundtrip (a : A3 α) (h : a.WF) :
 /-- **Same result for x,y,n and n,y,x input, and for array and file input.** For every operation `op` on the loaded
 stack (all six are instances), every output order and file switch, and every rectangular stack `a` (in `n,y,x`):
 passing `a` with `input_order="zyx"`, passing its `(2,1,0)` transpose with `input_order="xyz"`, and passing the MRC
-file that holds `a` (with either `input_order`) are the same computation. -/
+file that holds `a` (with either `input_order`) are the same computation.
+Proof-wise this is one `simp` over `pipeline := op (load inp)` using the two round-trip lemmas (`transpose3_transpose3`,
+`readMrc_writeMrc`): it is a statement about the MODEL's wrapper. That the real six functions have this wrapper shape
+(constructor → operation → `write_out` → `correct_order`, files read untransposed, arrays transposed iff `xyz`) is what
+`wrappers_documented`, `order_handling_documented` and `tiltstack_class_documented` pin, and what the 16-configuration run checks. -/
 theorem order_naturality (d : α) (outZyx wr inXyz : Bool) (op : A3 α → Except Err (List (A3 α))) (a : A3 α) (h : a.WF) :
     pipeline d true outZyx wr op (.arr (transpose3 d a)) = pipeline d false outZyx wr op (.arr a)
     ∧ pipeline d inXyz outZyx wr op (.file (writeMrc a)) = pipeline d false outZyx wr op (.arr a) := by
   simp only [pipeline, load, if_true, transpose3_transpose3 d a h, readMrc_writeMrc a h, Bool.false_eq_true, if_false, and_self]
 
 /-- **The output order only transposes the returned array and does not touch the file**: the `xyz` answer is the
-`(2,1,0)` transpose of the `zyx` answer, the files written are identical. -/
+`(2,1,0)` transpose of the `zyx` answer, the files written are identical.
+Definitional in the model (`present` is the only place `outZyx` is used); honest only through the `correct_order` /
+`write_out` anchors (`order_handling_documented`, `tiltstack_class_documented`) and the differential run. -/
 theorem output_order_only_transposes (d : α) (inXyz wr : Bool) (op : A3 α → Except Err (List (A3 α))) (inp : Input α) :
     pipeline d inXyz false wr op inp
       = (pipeline d inXyz true wr op inp).map (fun o => { o with returned := o.returned.map (transpose3 d) }) := by
@@ -676,14 +831,15 @@ theorem sort_length_mismatch (le : κ → κ → Bool) (angles : List κ) (imgs 
 /-- **Index sources.** A list/array goes through `remove_spec` as is; a csv file forces 0-based numbering whatever the
 caller passes and is not refused when nothing is flagged (nothing is removed); a text file with one or more entries behaves
 like the list (a single entry included: `indices_load` makes the loaded array 1-D, repository fix 068f224 of the former
-finding C15-K1), an empty one removes nothing. -/
+finding C15-K1), an empty one removes nothing; anything that is neither a path, a list nor an ndarray (a tuple) is refused. -/
 theorem remove_sources (base1 : Bool) (idxs : List Int) (imgs : List ι) :
     removeTiltsSrc .list base1 idxs imgs = removeTilts base1 idxs imgs
     ∧ (idxs ≠ [] → removeTiltsSrc .csv base1 idxs imgs = removeTilts false idxs imgs)
     ∧ removeTiltsSrc .csv base1 [] imgs = .ok imgs
     ∧ (idxs ≠ [] → removeTiltsSrc .txt base1 idxs imgs = removeTilts base1 idxs imgs)
-    ∧ removeTiltsSrc .txt base1 [] imgs = .ok imgs := by
-  refine ⟨rfl, ?_, rfl, ?_, rfl⟩
+    ∧ removeTiltsSrc .txt base1 [] imgs = .ok imgs
+    ∧ removeTiltsSrc .other base1 idxs imgs = .error .argType := by
+  refine ⟨rfl, ?_, rfl, ?_, rfl, rfl⟩
   · intro hne
     have : idxs.isEmpty = false := by simpa using hne
     simp [removeTiltsSrc, this]
@@ -711,11 +867,17 @@ theorem flip_reverses (d : α) {n H W : Nat} {v : L3 α} (h : Rect n H W v) {z j
   · exact h'
   · omega
 
+/-- anchor-level restatement (`rfl` through the regenerated `Gen.C15.flipTable`): which list operation each axis NAME
+denotes in the model. It is not a clause of the property by itself — the content is `flip_reverses` (which voxel moves
+where) together with `flip_table_documented` (the table in the source is the documented one); if the source table
+changes, this `rfl` stops type-checking. -/
 theorem flip_named_convention (v : L3 α) :
     flipAll ["x"] v = .ok (v.map List.reverse) ∧ flipAll ["y"] v = .ok (v.map (fun img => img.map List.reverse))
     ∧ flipAll ["z"] v = .ok v.reverse := ⟨rfl, rfl, rfl⟩
 
-/-- the `axes` argument: a single string is one axis, a list is applied left to right, anything else (a tuple) is refused -/
+/-- the `axes` argument: a single string is one axis, a list is applied left to right, anything else (a tuple) is refused.
+An `rfl` restatement of the definition of `flipArg` (an anchor for the reader, not a clause of the property); the tie to
+the code is the `if not isinstance(axes, list): axes = [axes]` statement in `flip_body_documented`. -/
 theorem flip_argument_kinds (v : L3 α) :
     (∀ a, flipArg (.one a) v = flipAll [a] v) ∧ (∀ as, flipArg (.list as) v = flipAll as v) ∧ flipArg .other v = .error .axis :=
   ⟨fun _ => rfl, fun _ => rfl, rfl⟩
@@ -799,6 +961,7 @@ theorem file_holds_result_for_each_function (d : α) (inXyz outZyx : Bool) (inp 
           · cases hs; exact fun x hx => hx
           · obtain ⟨_, _, _, _, _, hsub, _⟩ := remove_spec false idxs _ v hs
             exact fun x hx => hsub.subset hx
+        | other => simp [removeTiltsSrc] at hs
       exact rect_of_mem hin hmem
   · intro h
     exact written_file_holds_result d inXyz outZyx _ inp o (fun rs hrs => wsplit rs hrs) h
@@ -846,6 +1009,131 @@ theorem file_holds_result_for_each_function (d : α) (inXyz outZyx : Bool) (inp 
   · intro newW newH h
     exact written_file_holds_result d inXyz outZyx _ inp o (fun rs hrs => wcrop newW newH rs hrs) h
 
+
+/-! ### the tilt-angle sources: sorting is judged on the angles AS WRITTEN (exact decimal → `Rat`)
+
+`sort_tilts_by_angle` takes its angles from a text file with one decimal number per line (`one_value_per_line_read`,
+float32), from the `TiltAngle` entries of an mdoc file (float64) or from a list / ndarray. The model parses the decimal
+TEXT exactly (`parseDec`) and sorts by that rational number, so the theorems below are about the very key written in the
+file. The code's key is this number rounded to float32 / float64: rounding is monotone, hence the order is the same
+unless two different written angles round to the same float (the harness computes this for every case and counts such
+cases as outside — they need ≥ 7 significant digits). -/
+
+/-- **What a decimal text denotes**: `ddd.ddd` is the integer part plus the fractional digits over `10 ^ (their number)`,
+a leading `-` negates, a text without a decimal point is the integer. (Every all-digit `ip ≠ []`, every all-digit `fp`.) -/
+theorem angle_text_value (ip fp : List Char) (hip : ∀ c ∈ ip, c.isDigit = true) (hfp : ∀ c ∈ fp, c.isDigit = true) (hne : ip ≠ []) :
+    parseDecChars (ip ++ '.' :: fp) = some ((natOfDigits ip : Rat) + (natOfDigits fp : Rat) / (10 : Rat) ^ fp.length)
+    ∧ parseDecChars ('-' :: (ip ++ '.' :: fp)) = some (-((natOfDigits ip : Rat) + (natOfDigits fp : Rat) / (10 : Rat) ^ fp.length))
+    ∧ parseDecChars ip = some (natOfDigits ip : Rat)
+    ∧ parseDecChars ('-' :: ip) = some (-(natOfDigits ip : Rat)) := by
+  obtain ⟨d, t, rfl⟩ : ∃ d t, ip = d :: t := by cases ip with | nil => exact absurd rfl hne | cons d t => exact ⟨d, t, rfl⟩
+  have hd : d.isDigit = true := hip d (by simp)
+  have hm : d ≠ '-' := by rintro rfl; exact absurd hd (by decide)
+  have hp : d ≠ '+' := by rintro rfl; exact absurd hd (by decide)
+  have huns : ∀ rest, parseDecChars (d :: rest) = parseUnsigned (d :: rest) := by
+    intro rest
+    unfold parseDecChars
+    split
+    · rename_i h; exact absurd (List.cons.inj h).1 hm
+    · rename_i h; exact absurd (List.cons.inj h).1 hp
+    · rfl
+  have h1 := parseUnsigned_decimal (d :: t) fp hip hfp hne
+  have h2 := parseUnsigned_integer (d :: t) hip hne
+  refine ⟨by rw [List.cons_append, huns, ← List.cons_append]; exact h1, ?_, by rw [huns]; exact h2, ?_⟩
+  · show (parseUnsigned (d :: t ++ '.' :: fp)).map (fun q => -q) = _
+    rw [h1]; rfl
+  · show (parseUnsigned (d :: t)).map (fun q => -q) = _
+    rw [h2]; rfl
+
+/-- **Sorting by the written angles** (hypothesis-free about the order: `≤` on `Rat` is total and transitive): if every
+line parses (`keys` are the exact values, one per image), the result is a permutation of the (angle, image) pairs,
+ascending in the written angle. -/
+theorem sort_by_written_angles (lines : List String) (keys : List Rat) (imgs : List ι)
+    (hparse : List.Forall₂ (fun s q => parseDec s = some q) lines keys) (hlen : lines.length = imgs.length) :
+    ∃ ps : List (Rat × ι), sortTiltsLines lines imgs = .ok (ps.map (·.2))
+      ∧ ps.Perm (keys.zip imgs) ∧ ps.Pairwise (fun p q => p.1 ≤ q.1) := by
+  have hk : keys.length = imgs.length := by rw [← hlen]; exact hparse.length_eq.symm
+  obtain ⟨ps, hres, hperm, hsorted⟩ := sort_perm_sorted ratLe ratLe_trans ratLe_total keys imgs hk
+  refine ⟨ps, ?_, hperm, hsorted.imp (fun h => by simpa [ratLe] using h)⟩
+  simp only [sortTiltsLines, parseAll_of_forall₂ lines keys hparse]
+  exact hres
+
+/-- written angles without ties: the ascending arrangement is unique — any correct sorting routine returns the model's list -/
+theorem sort_by_written_angles_unique (keys : List Rat) (hnodup : keys.Nodup) (imgs : List ι) (hlen : keys.length = imgs.length)
+    (ps qs : List (Rat × ι)) (hp : ps.Perm (keys.zip imgs)) (hq : qs.Perm (keys.zip imgs))
+    (hps : ps.Pairwise (fun p q => p.1 ≤ q.1)) (hqs : qs.Pairwise (fun p q => p.1 ≤ q.1)) : ps = qs :=
+  sort_unique_without_ties ratLe ratLe_antisymm keys hnodup imgs hlen ps qs hp hq
+    (hps.imp (fun h => by simpa [ratLe] using h)) (hqs.imp (fun h => by simpa [ratLe] using h))
+
+/-- **Ties (outside the property; recorded).** The MODEL's sort is stable: whenever image `i` comes before image `j` in the
+input and its angle is `≤` the angle of `j` (in particular: equal), `i` comes before `j` in the result. The real code calls
+`np.argsort(tilt_angles)` with numpy's default `kind="quicksort"` (`sort_expressions_documented`), which numpy does not
+promise to be stable; so for tied angles the harness only checks that the result is SOME ascending arrangement and never
+compares the positions of tied images with the model. -/
+theorem sort_ties_keep_input_order (le : κ → κ → Bool)
+    (htrans : ∀ a b c, le a b = true → le b c = true → le a c = true) (htotal : ∀ a b, (le a b || le b a) = true)
+    (angles : List κ) (imgs : List ι) (hlen : angles.length = imgs.length) (i j : Nat) (hij : i < j) (hj : j < angles.length)
+    (hle : le (angles[i]'(by omega)) angles[j] = true) :
+    ∃ r, sortTilts le angles imgs = .ok r ∧ [imgs[i]'(by omega), imgs[j]'(by omega)].Sublist r := by
+  have hall := (argsort_all_lt le angles imgs.length).2 (by omega)
+  refine ⟨_, by unfold sortTilts; simp only; rw [if_pos hall], ?_⟩
+  have hs := (argsort_stable le htrans htotal angles i j hij hj hle).filterMap (imgs[·]?)
+  have hi' : i < imgs.length := by omega
+  have hj' : j < imgs.length := by omega
+  simpa [List.filterMap_cons, List.getElem?_eq_getElem hi', List.getElem?_eq_getElem hj'] using hs
+
+/-- the same for the written angles: two images with the same written angle keep their input order in the model -/
+theorem sort_written_ties_keep_input_order (keys : List Rat) (imgs : List ι) (hlen : keys.length = imgs.length)
+    (i j : Nat) (hij : i < j) (hj : j < keys.length) (heq : keys[i]'(by omega) = keys[j]) :
+    ∃ r, sortTilts ratLe keys imgs = .ok r ∧ [imgs[i]'(by omega), imgs[j]'(by omega)].Sublist r :=
+  sort_ties_keep_input_order ratLe ratLe_trans ratLe_total keys imgs hlen i j hij hj (by simp [ratLe, heq])
+
+/-- **From the text of the file to the column of angles** (what `AngArg.tltFile` / `AngArg.mdocFile` sort by). Both extractions
+are compositional over the lines of the file (`…_append`), so these per-line facts describe whole files:
+a one-value-per-line file contributes, per non-blank line, its first whitespace-separated field (leading blanks as IMOD writes
+them in `.rawtlt`, trailing blanks / `\r` dropped), blank lines nothing; an mdoc file contributes, per `TiltAngle = v` line,
+the stripped `v`, and nothing for section headers `[ZValue = k]`, other keys or blank lines. -/
+theorem angle_file_columns :
+    (∀ a b, tltColumn (a ++ b) = tltColumn a ++ tltColumn b)
+    ∧ (∀ l, (∀ c ∈ l, isWs c = true) → tltColumn [l] = [])
+    ∧ (∀ pre tok post, (∀ c ∈ pre, isWs c = true) → (∀ c ∈ tok, isWs c = false) → tok ≠ [] →
+        (post = [] ∨ ∃ w rest, post = w :: rest ∧ isWs w = true) → tltColumn [pre ++ tok ++ post] = [tok])
+    ∧ (∀ a b, mdocColumn (a ++ b) = mdocColumn a ++ mdocColumn b)
+    ∧ (∀ k v, (∀ c ∈ k, c ≠ '=') → trimChars k = "TiltAngle".toList → (k ++ '=' :: v).head? ≠ some '[' →
+        mdocColumn [k ++ '=' :: v] = [trimChars v])
+    ∧ (∀ l, (l.head? = some '[' ∨ keyOf l ≠ "TiltAngle".toList) → mdocColumn [l] = []) :=
+  ⟨tltColumn_append, tltColumn_blank, tltColumn_line, mdocColumn_append, mdocColumn_line, mdocColumn_skip⟩
+
+/-- what the model does with each kind of `input_tilts` (definitional unfoldings — anchors, not clauses): an argument that is
+neither a path, a list nor an ndarray is refused like `tlt_load`'s final `raise ValueError` (`loaders_documented`); a cell that
+is not a plain decimal number puts the case outside the model (`angleText`); otherwise the call IS `opSort` on the exact values
+of the cells — so `sort_by_written_angles`, `sort_by_written_angles_unique`, `ops_wf` apply to what the driver executes. -/
+theorem sort_argument_kinds (arg : AngArg) (a : A3 α) :
+    (arg.cells = none → opSortArg arg a = .error .argType)
+    ∧ (∀ cells, arg.cells = some cells → parseAll cells = none → opSortArg arg a = .error .angleText)
+    ∧ (∀ cells keys, arg.cells = some cells → parseAll cells = some keys → opSortArg arg a = opSort ratLe keys a)
+    ∧ AngArg.other.cells = none ∧ (∀ lines, (AngArg.seq lines).cells = some lines) := by
+  refine ⟨fun h => ?_, fun cells hc h => ?_, fun cells keys hc h => ?_, rfl, fun _ => rfl⟩
+  · simp [opSortArg, h]
+  · simp [opSortArg, hc, sortTiltsLines, h, Except.map]
+  · simp [opSortArg, hc, sortTiltsLines, h, opSort]
+
+/-- **The written file holds the result for sorting by a file / list of written angles** (the operation the driver executes) -/
+theorem file_holds_result_sort_lines (d : α) (inXyz outZyx : Bool) (inp : Input α) (hin : (load d inXyz inp).WF) (o : Out α)
+    (arg : AngArg) (h : pipeline d inXyz outZyx true (opSortArg arg) inp = .ok o) :
+    (outZyx = true → o.written.map readMrc = o.returned)
+    ∧ (outZyx = false → o.written.map (fun f => transpose3 d (readMrc f)) = o.returned) := by
+  refine written_file_holds_result d inXyz outZyx _ inp o ?_ h
+  intro rs hrs
+  cases hc : arg.cells with
+  | none => rw [(sort_argument_kinds arg _).1 hc] at hrs; cases hrs
+  | some cells =>
+    cases hk : parseAll cells with
+    | none => rw [(sort_argument_kinds arg _).2.1 cells hc hk] at hrs; cases hrs
+    | some keys =>
+      rw [(sort_argument_kinds arg _).2.2.1 cells keys hc hk] at hrs
+      exact (ops_wf (κ := Rat) (load d inXyz inp) hin).1 ratLe keys rs hrs
+
 /-! ### non-vacuity: concrete inputs meeting the hypotheses -/
 
 example := sort_perm_sorted (fun (a b : Int) => decide (a ≤ b)) (by intro a b c; simp; omega) (by intro a b; simp; omega)
@@ -872,5 +1160,23 @@ example : flipArg (.one "x") [[[1, 2], [3, 4]]] = .ok [[[3, 4], [1, 2]]] := by d
 example : flipArg .other [[[1, 2], [3, 4]]] = .error .axis := by decide
 example : truncI ((-7 : Rat) / 2) = -3 ∧ truncI ((7 : Rat) / 2) = 3 ∧ truncI (-(1 : Rat) / 4) = 0 := by decide +kernel
 example : Rect 2 2 2 [[[1, 2], [3, 4]], [[5, 6], [7, 8]]] := by unfold Rect; decide
+example : parseDec " -60.00" = some (-60) ∧ parseDec "10.34" = some (517 / 50) ∧ parseDec "10.26\r" = some (513 / 50)
+    ∧ parseDec "12" = some 12 ∧ parseDec ".5" = some (1 / 2) ∧ parseDec "1e1" = none ∧ parseDec "" = none := by decide +kernel
+/-- the audit's example: 10.34, 10.26, -3.0 sort to positions [2, 1, 0] (rounding the angles to one decimal would give
+[2, 0, 1]); derived from the two theorems above, not by evaluating the sort -/
+example : sortTiltsLines ["10.34", "10.26", "-3.0"] ["a", "b", "c"] = .ok ["c", "b", "a"] := by
+  obtain ⟨ps, hres, hperm, hsorted⟩ := sort_by_written_angles ["10.34", "10.26", "-3.0"] [517 / 50, 513 / 50, -3] ["a", "b", "c"]
+    (.cons (by decide +kernel) (.cons (by decide +kernel) (.cons (by decide +kernel) .nil))) rfl
+  have := sort_by_written_angles_unique [517 / 50, 513 / 50, -3] (by decide +kernel) ["a", "b", "c"] rfl ps
+    [(-3, "c"), (513 / 50, "b"), (517 / 50, "a")] hperm (List.reverse_perm [(517 / 50, "a"), (513 / 50, "b"), (-3, "c")])
+    hsorted (by decide +kernel)
+  rw [hres, this]; rfl
+example := sort_by_written_angles ["10.34", "10.26", "-3.0"] [517 / 50, 513 / 50, -3] ["a", "b", "c"]
+  (.cons (by decide +kernel) (.cons (by decide +kernel) (.cons (by decide +kernel) .nil))) rfl
+example := angle_text_value ['1', '0'] ['3', '4'] (by decide) (by decide) (by decide)
+example : removeTiltsSrc .other true [1] ["a", "b"] = .error .argType := rfl
+example : (AngArg.tltFile [" -60.00", "  -57.00\r", "", "3.5 7"]).cells = some ["-60.00", "-57.00", "3.5"] := by decide
+example : (AngArg.mdocFile ["PixelSpacing = 1.35", "[T = x]", "[ZValue = 0]", "TiltAngle = -0.01", "ExposureDose = 3.0", "",
+    "[ZValue = 1]", "TiltAngle = 59.98"]).cells = some ["-0.01", "59.98"] := by decide
 
 end CryoCat.C15
